@@ -442,6 +442,7 @@ func finderSemantics(c *core.Ctx, rel, name string, truncates bool) {
 		}
 	}
 	var startP, endP, cutP []string
+	nCut := 0
 	nFound, nEmpty := 0, 0
 	for _, p := range ps {
 		if p.Aborted != "" {
@@ -639,6 +640,7 @@ func finderSemantics(c *core.Ctx, rel, name string, truncates bool) {
 				cutP = append(cutP, "a value longer than the positive width is returned uncut")
 			}
 		case maxParam != "" && linEq(res.hi, res.lo.Add(prover.Atom(maxParam), 1)):
+			nCut++
 			if !truncates {
 				cutP = append(cutP, "the value is cut to the width parameter although this variant returns exactly the characters up to the next space")
 			} else if !(has(prover.Atom(maxParam), "GT") && has(length0.Add(prover.Atom(maxParam), -1), "GT")) {
@@ -658,6 +660,9 @@ func finderSemantics(c *core.Ctx, rel, name string, truncates bool) {
 	c.Decide(len(startP) == 0, "C18-OFFSET", key+"#start", pos, fmt.Sprintf("%d paths: \"\" iff no key found; otherwise the value starts at Index(s,K)+len(K), K = <key>+\":\" (backup only after the primary was absent)", len(ps)),
 		"the value start is not Index(s,K)+len(K) with one and the same K: "+strings.Join(dedup(startP), "; "))
 	c.Decide(len(endP) == 0, "C18-OFFSET", key+"#end", pos, "value ends at the first space at or after start, else at the end of the text", "the value end is not the first space at or after the start / end of text: "+strings.Join(dedup(endP), "; "))
+	if truncates && nCut == 0 {
+		cutP = append(cutP, "no path cuts a value to the width parameter: values longer than the width the specification gives the field are returned whole")
+	}
 	if truncates {
 		c.Decide(len(cutP) == 0, "C18-OFFSET", key+"#cut", pos, "cut to the width exactly under width > 0 && len(value) > width", strings.Join(dedup(cutP), "; "))
 	} else {
